@@ -974,6 +974,7 @@ fn run(cfg: &Config, s: &mut Session) {
     split2::run(cfg, s, &mut rng);
     e2e::run(cfg, s, &mut rng);
     split2::run_devs(cfg, s, &mut rng);
+    e2e::run_pairs_build(cfg, s, &mut rng);
 }
 
 fn main() {
